@@ -260,6 +260,9 @@ def _m_round(obj, decimals=0, *a, **k):
     if isinstance(obj, Sym):
         return round_elem(obj, decimals)
     if not has_sym(obj):
+        if getattr(obj, "dtype", None) == object:
+            # an object array that (on this path) holds plain numbers only
+            return _map(obj, lambda e: round_elem(e, decimals))
         return obj.round(decimals, *a, **k)
     return _map(obj, lambda e: round_elem(e, decimals))
 
@@ -267,6 +270,11 @@ def _m_round(obj, decimals=0, *a, **k):
 def _series_reduce(name):
     def red(obj, *a, **k):
         if not has_sym(obj):
+            if getattr(obj, "dtype", None) == object:
+                try:
+                    obj = obj.astype(float)
+                except (TypeError, ValueError):
+                    pass
             return getattr(obj, name)(*a, **k)
         xs = _elems(obj)
         skipna = k.get("skipna", True) if isinstance(obj, _pd.Series) else False
@@ -297,6 +305,8 @@ def _series_reduce(name):
 
 def _m_quantile(obj, q=0.5, *a, **k):
     if not has_sym(obj):
+        if getattr(obj, "dtype", None) == object:
+            obj = obj.astype(float)
         return obj.quantile(q, *a, **k)
     xs = [x for x in _elems(obj) if not _is_nan(x)]
     return sym_percentile(xs, Fraction(q) * 100)
